@@ -361,6 +361,21 @@ func cmdCheck(args []string) int {
 	}
 
 	if *update {
+		// never let an update hide a regression: an obligation that was proved before and does not discharge now is reported,
+		// and the lists are left as they are
+		var regress []string
+		for _, o := range append(append([]*Obligation{}, failing...), unprovedSeen...) {
+			if expected[o.Name] {
+				regress = append(regress, o.Name+" ["+o.Result+"]")
+			}
+		}
+		if len(regress) > 0 && os.Getenv("TVC_ACCEPT_REGRESSION") == "" {
+			for _, r := range regress {
+				fmt.Println("REGRESSION: previously proved obligation does not discharge:", r)
+			}
+			fmt.Println("expected list NOT updated")
+			os.Exit(3)
+		}
 		var names []string
 		for _, o := range passing {
 			names = append(names, o.Name)
